@@ -10,6 +10,9 @@ import (
 
 	"pgregory.net/rapid"
 
+	"git.metabarcoding.org/obitools/obitools4/obitools4/pkg/obiformats"
+	"git.metabarcoding.org/obitools/obitools4/obitools4/pkg/obiseq"
+
 	"verifharness/internal/evid"
 )
 
@@ -60,8 +63,8 @@ func init() {
 	}
 	evid.Tests(
 		evid.Spec{Name: "TestBacklogModel", Kind: "plain", QuickShards: 1, ThoroughShards: 1},
-		evid.Spec{Name: "TestPropLongBacklog", Kind: "rapid", Quick: 640, Thorough: 12000, QuickShards: 8, ThoroughShards: 16},
-		evid.Spec{Name: "TestPropGatedBacklog", Kind: "rapid", Quick: 320, Thorough: 6000, QuickShards: 8, ThoroughShards: 16},
+		evid.Spec{Name: "TestPropLongBacklog", Kind: "rapid", Quick: 1600, Thorough: 8000, QuickShards: 8, ThoroughShards: 16},
+		evid.Spec{Name: "TestPropGatedBacklog", Kind: "rapid", Quick: 800, Thorough: 4000, QuickShards: 8, ThoroughShards: 16},
 	)
 }
 
@@ -239,7 +242,26 @@ type gateCtl struct {
 	asked   map[int]bool // held-back batches whose gate was reached at all
 }
 
+// gateWarmUp formats one record carrying an (open) gate, once per process and
+// on one goroutine, before any gated run.  goccy/go-json compiles the encoder
+// of a type at its first use and publishes it in an unsynchronised cache (the
+// repository warms the decoders of its own types up for the same reason, see
+// pkg/obiformats/json_decoder_warmup.go): two formatting workers meeting the
+// harness type gateVal for the first time at the same moment produced a garbled
+// record or an encoding error about 1 fresh process in 40.  That is an artefact
+// of the type brought by the harness, not a behaviour of the writers.
+var gateWarmUp sync.Once
+
 func newGateCtl(n int) *gateCtl {
+	gateWarmUp.Do(func() {
+		g := &gateCtl{seen: make([]bool, 1), after: map[int]int{}, need: map[int]int{}, blocked: map[int]bool{}, asked: map[int]bool{}, aborted: true}
+		g.cond = sync.NewCond(&g.mu)
+		s := obiseq.NewBioSequenceWithQualities("warmup", []byte("acgt"), "", []byte{1, 2, 3, 4})
+		s.SetAttribute("batch", g.value(0))
+		_ = obiformats.JSONRecord(s)
+		_ = obiformats.FormatFastSeqJsonHeader(s)
+		_ = fmt.Sprintf("%v", g.value(0))
+	})
 	g := &gateCtl{seen: make([]bool, n), after: map[int]int{}, need: map[int]int{}, blocked: map[int]bool{}, asked: map[int]bool{}}
 	g.cond = sync.NewCond(&g.mu)
 	return g
@@ -483,7 +505,7 @@ func genBacklogSize(t *rapid.T) int {
 		return rapid.IntRange(8, 300).Draw(t, "backlog_small")
 	case 2, 3, 4, 5:
 		return rapid.IntRange(1025, 5000).Draw(t, "backlog_any")
-	case 6:
+	case 6, 7:
 		if evid.Thorough() {
 			if rapid.Bool().Draw(t, "backlog_huge_exact") {
 				return rapid.SampledFrom(backlogSizesThorough).Draw(t, "backlog_huge") + rapid.IntRange(0, 2).Draw(t, "backlog_plus")
@@ -646,13 +668,12 @@ func evalBacklog(rt *rapid.T, b bcase) {
 	cl, nontrivial := b.classes(st)
 	asked, blocked, cerr := checkBacklogObs(b)
 	if b.gated() && cerr == nil {
-		switch {
-		case blocked == asked:
+		// a gate found open = the formatting worker was itself so late that the
+		// batches the gate waits for had been delivered already: same arrival order
+		if blocked == asked {
 			cl = append(cl, "backlog:gated:every_gate_had_to_wait")
-		case blocked > 0:
-			cl = append(cl, "backlog:gated:some_gates_had_to_wait")
-		default:
-			cl = append(cl, "backlog:gated:no_gate_had_to_wait")
+		} else {
+			cl = append(cl, "backlog:gated:some_gate_found_open_by_a_late_worker")
 		}
 	}
 	evid.Eval(backlogCheckName(b.Writer), evid.Hash(b.key()), nontrivial, b, cl...)
